@@ -472,6 +472,24 @@ struct OverloadSys : StreamBase {
         ov.push_back(OvOp{"<< std::u16string_view", [](SS &s) { s << std::u16string_view(u16txt); }, txt});
         ov.push_back(OvOp{"<< std::u32string_view", [](SS &s) { s << std::u32string_view(u32txt); }, txt});
         ov.push_back(OvOp{"<< std::u8string_view", [](SS &s) { s << std::u8string_view(u8s); }, txt});
+        // length-carrying arguments with an embedded U+0000: all units are appended, not the part before the first zero
+        static const std::string ntxt("a\0b\xC3\xA9", 5);
+        static const std::wstring nw(L"a\0b\u00e9", 4);
+        static const std::u16string n16(u"a\0b\u00e9", 4);
+        static const std::u32string n32(U"a\0b\u00e9", 4);
+        static const std::u8string n8(u8"a\0b\u00e9", 5);
+        ov.push_back(OvOp{"<< ST::string (embedded NUL)", [](SS &s) { s << ST::string::from_validated(ntxt.data(), ntxt.size()); }, ntxt});
+        ov.push_back(OvOp{"<< std::string (embedded NUL)", [](SS &s) { s << ntxt; }, ntxt});
+        ov.push_back(OvOp{"<< std::wstring (embedded NUL)", [](SS &s) { s << nw; }, ntxt});
+        ov.push_back(OvOp{"<< std::u16string (embedded NUL)", [](SS &s) { s << n16; }, ntxt});
+        ov.push_back(OvOp{"<< std::u32string (embedded NUL)", [](SS &s) { s << n32; }, ntxt});
+        ov.push_back(OvOp{"<< std::u8string (embedded NUL)", [](SS &s) { s << n8; }, ntxt});
+        ov.push_back(OvOp{"<< std::string_view (embedded NUL)", [](SS &s) { s << std::string_view(ntxt); }, ntxt});
+        ov.push_back(OvOp{"<< std::wstring_view (embedded NUL)", [](SS &s) { s << std::wstring_view(nw); }, ntxt});
+        ov.push_back(OvOp{"<< std::u16string_view (embedded NUL)", [](SS &s) { s << std::u16string_view(n16); }, ntxt});
+        ov.push_back(OvOp{"<< std::u32string_view (embedded NUL)", [](SS &s) { s << std::u32string_view(n32); }, ntxt});
+        ov.push_back(OvOp{"<< std::u8string_view (embedded NUL)", [](SS &s) { s << std::u8string_view(n8); }, ntxt});
+        ov.push_back(OvOp{"<< std::u16string (U+0000 alone)", [](SS &s) { s << std::u16string(1, u'\0'); }, std::string(1, '\0')});
         ov.push_back(OvOp{"<< char 'x'", [](SS &s) { s << 'x'; }, "x"});
         ov.push_back(OvOp{"<< char NUL", [](SS &s) { s << '\0'; }, std::string(1, '\0')});
         ov.push_back(OvOp{"append(with embedded NUL, 3)", [](SS &s) { s.append("a\0b", 3); }, std::string("a\0b", 3)});
